@@ -13,6 +13,7 @@ EXTENDS Integers, Sequences, FiniteSets, TLC, Json
 CONSTANTS MaxStack,    \* maximal height of the construction stack (prunes constructions that cannot finish)
           Budget,      \* maximal number of nodes
           Enabled,     \* set of constructor names enabled in this configuration
+          ExtraParens, \* render every expression with one redundant pair of parentheses (layout-only variant, C08)
           NameSet,     \* identifiers available to PushName (soft keywords included in some configurations)
           Emit
 
@@ -33,7 +34,7 @@ TrueC == [k |-> "Constant", value |-> [t |-> "bool", v |-> TRUE], kind |-> NoStr
 
 \* precedence levels
 TUPLE == 0  NAMED == 1  TEST == 2  OR == 3  AND == 4  NOT == 5  CMP == 6  BOR == 7  BXOR == 8  BAND == 9
-SHIFT == 10  ARITH == 11  TERM == 12  FACTOR == 13  POWER == 14  AWAIT == 15  PRIMARY == 16  ATOM == 17
+SHIFT == 10  ARITH == 11  TERM == 12  FACTOR == 13  POWER == 14  AWAIT == 15  PRIMARY == 16  ATOM == 17  NOPAREN == 18
 BinLevel(op) == CASE op = "BitOr" -> BOR [] op = "BitXor" -> BXOR [] op = "BitAnd" -> BAND
                   [] op \in {"LShift", "RShift"} -> SHIFT [] op \in {"Add", "Sub"} -> ARITH
                   [] op \in {"Mult", "Div", "FloorDiv", "Mod", "MatMult"} -> TERM [] op = "Pow" -> POWER
@@ -94,7 +95,7 @@ R(n, p, need) ==
                                      J(j) == IF j > Len(n.ops) THEN <<>> ELSE Toks(CmpText(n.ops[j])) \o ChI(n.comparators[j], "comparators", j, BOR) \o J(j + 1)
                                  IN Ch(n.left, "left", BOR) \o J(1)
            [] n.k = "IfExp" -> Ch(n.body, "body", OR) \o <<T("if")>> \o Ch(n.test, "test", OR) \o <<T("else")>> \o Ch(n.orelse, "orelse", TEST)
-           [] n.k = "NamedExpr" -> Ch(n.target, "target", ATOM) \o <<T(":=")>> \o Ch(n.value, "value", TEST)
+           [] n.k = "NamedExpr" -> Ch(n.target, "target", NOPAREN) \o <<T(":=")>> \o Ch(n.value, "value", TEST)
            [] n.k = "Await" -> <<T("await")>> \o Ch(n.value, "value", PRIMARY)
            [] n.k = "Attribute" -> Ch(n.value, "value", PRIMARY) \o <<T("."), T(n.attr)>>
            [] n.k = "Starred" -> <<T("*")>> \o Ch(n.value, "value", need)
@@ -149,11 +150,14 @@ R(n, p, need) ==
        parens == IF yieldLike THEN need # -1
                  ELSE IF n.k = "Tuple" THEN tupParens
                  ELSE IF n.k \in {"Starred", "Slice"} THEN FALSE
-                 ELSE lvl < (IF need <= 0 THEN TEST ELSE need)
-   IN IF parens
-      THEN (IF n.k = "Tuple" THEN <<B(p), T("(")>> \o body \o <<T(")"), E(p)>>
-            ELSE <<T("("), B(p)>> \o body \o <<E(p), T(")")>>)
-      ELSE <<B(p)>> \o body \o <<E(p)>>
+                 ELSE lvl < (IF need <= 0 THEN TEST ELSE IF need = NOPAREN THEN ATOM ELSE need)
+       core == IF parens
+               THEN (IF n.k = "Tuple" THEN <<B(p), T("(")>> \o body \o <<T(")"), E(p)>>
+                     ELSE <<T("("), B(p)>> \o body \o <<E(p), T(")")>>)
+               ELSE <<B(p)>> \o body \o <<E(p)>>
+       \* need = NOPAREN marks positions where parentheses are not allowed or would change the tree
+       extra == ExtraParens /\ need # NOPAREN /\ n.k \notin {"Starred", "Slice"}
+   IN IF extra THEN <<T("(")>> \o core \o <<T(")")>> ELSE core
 
 \* comprehension clauses
 RGens(gens, p) ==
@@ -345,7 +349,7 @@ RS(n, p) ==
    CASE n.k = "Expr" -> simple(Ch(n.value, "value", -1))
      [] n.k = "Assign" -> simple(Cat([j \in 1..Len(n.targets) |-> R(n.targets[j], p \o <<"targets", j>>, TUPLE) \o <<T("=")>>]) \o Ch(n.value, "value", -1))
      [] n.k = "AugAssign" -> simple(Ch(n.target, "target", ATOM) \o <<T(BinText(n.op) \o "=")>> \o Ch(n.value, "value", -1))
-     [] n.k = "AnnAssign" -> simple((IF n.parTarget THEN <<T("(")>> \o Ch(n.target, "target", ATOM) \o <<T(")")>> ELSE Ch(n.target, "target", PRIMARY)) \o <<T(":")>> \o Ch(n.annotation, "annotation", TEST)
+     [] n.k = "AnnAssign" -> simple((IF n.parTarget THEN <<T("(")>> \o Ch(n.target, "target", NOPAREN) \o <<T(")")>> ELSE Ch(n.target, "target", IF n.simple = 1 THEN NOPAREN ELSE PRIMARY)) \o <<T(":")>> \o Ch(n.annotation, "annotation", TEST)
                                     \o (IF n.value.k = "~" THEN <<>> ELSE <<T("=")>> \o Ch(n.value, "value", -1)))
      [] n.k = "Return" -> simple(<<T("return")>> \o (IF n.value.k = "~" THEN <<>> ELSE Ch(n.value, "value", TUPLE)))
      [] n.k \in {"Pass", "Break", "Continue"} -> simple(<<T(CASE n.k = "Pass" -> "pass" [] n.k = "Break" -> "break" [] OTHER -> "continue")>>)
@@ -357,7 +361,7 @@ RS(n, p) ==
      [] n.k = "ImportFrom" -> simple(<<T("from")>> \o [j \in 1..n.level |-> T(".")] \o (IF n.module = NoStr THEN <<>> ELSE <<T(n.module)>>) \o <<T("import")>>
                                      \o (IF n.star THEN <<B(p \o <<"names", 1>>), T("*"), E(p \o <<"names", 1>>)>>
                                          ELSE Commas([j \in 1..Len(n.names) |-> RAlias(n.names[j], p \o <<"names", j>>)])))
-     [] n.k = "TypeAlias" -> simple(<<T("type")>> \o Ch(n.name, "name", ATOM) \o RTypeParams(n.type_params, p) \o <<T("=")>> \o Ch(n.value, "value", TEST))
+     [] n.k = "TypeAlias" -> simple(<<T("type")>> \o Ch(n.name, "name", NOPAREN) \o RTypeParams(n.type_params, p) \o <<T("=")>> \o Ch(n.value, "value", TEST))
      [] n.k = "If" -> compound(<<T("if")>> \o Ch(n.test, "test", NAMED) \o RBody(n.body, p, "body") \o RIfTail(n, p))
      [] n.k = "While" -> compound(<<T("while")>> \o Ch(n.test, "test", NAMED) \o RBody(n.body, p, "body")
                                   \o (IF n.orelse = <<>> THEN <<>> ELSE <<T("else")>> \o RBody(n.orelse, p, "orelse")))
@@ -401,20 +405,28 @@ RS(n, p) ==
                                   \o <<DED>>)
 
 \* ---------------- patterns ----------------
+\* expressions inside patterns (literals, dotted names, signed numbers) never take parentheses
+RECURSIVE RNoX(_, _, _)
+RNoX(v, p, need) ==
+   <<B(p)>> \o (CASE v.k = "Name" -> <<T(v.id)>>
+                  [] v.k = "Constant" -> <<T(v.src)>>
+                  [] v.k = "Attribute" -> RNoX(v.value, Append(p, "value"), PRIMARY) \o <<T("."), T(v.attr)>>
+                  [] v.k = "UnaryOp" -> <<T(UnaryText(v.op))>> \o RNoX(v.operand, Append(p, "operand"), FACTOR))
+   \o <<E(p)>>
 \* levels: 0 as-pattern, 1 or-pattern, 2 closed pattern
 PLevel(q) == IF q.k = "MatchAs" /\ q.pattern.k # "~" THEN 0 ELSE IF q.k = "MatchOr" THEN 1 ELSE 2
 RP(q, p, need) ==
    LET Sub(c, f, j, lvl) == RP(c, p \o <<f, j>>, lvl)
        body ==
-         CASE q.k = "MatchValue" -> R(q.value, Append(p, "value"), FACTOR)
+         CASE q.k = "MatchValue" -> RNoX(q.value, Append(p, "value"), FACTOR)
            [] q.k = "MatchSingleton" -> <<T(q.src)>>
            [] q.k = "MatchSequence" -> <<T("[")>> \o Commas([j \in 1..Len(q.patterns) |-> Sub(q.patterns[j], "patterns", j, 0)]) \o <<T("]")>>
            [] q.k = "MatchStar" -> <<T("*"), T(IF q.name = NoStr THEN "_" ELSE q.name)>>
            [] q.k = "MatchMapping" -> <<T("{")>>
-                 \o Commas([j \in 1..Len(q.keys) |-> R(q.keys[j], p \o <<"keys", j>>, PRIMARY) \o <<T(":")>> \o Sub(q.patterns[j], "patterns", j, 0)]
+                 \o Commas([j \in 1..Len(q.keys) |-> RNoX(q.keys[j], p \o <<"keys", j>>, PRIMARY) \o <<T(":")>> \o Sub(q.patterns[j], "patterns", j, 0)]
                            \o (IF q.rest = NoStr THEN <<>> ELSE << <<T("**"), T(q.rest)>> >>))
                  \o <<T("}")>>
-           [] q.k = "MatchClass" -> R(q.cls, Append(p, "cls"), PRIMARY) \o <<T("(")>>
+           [] q.k = "MatchClass" -> RNoX(q.cls, Append(p, "cls"), PRIMARY) \o <<T("(")>>
                  \o Commas([j \in 1..Len(q.patterns) |-> Sub(q.patterns[j], "patterns", j, 0)]
                            \o [j \in 1..Len(q.kwd_attrs) |-> <<T(q.kwd_attrs[j]), T("=")>> \o Sub(q.kwd_patterns[j], "kwd_patterns", j, 0)])
                  \o <<T(")")>>
